@@ -319,13 +319,176 @@ def zygote_run(case, slot=0):
         return {"harness_error": f"fresh-process runner: {type(e).__name__}: {e}"}
 
 
+# ------------------------------------------------------------------------------------------
+# [str5-C12] identifier spellings and coefficient scales.
+# The property quantifies over ALL Hamiltonians with distinct terms: the NAMES the caller gives the operators (keys of
+# the conversion dictionary) and the SIZE / representation of the rational prefactors are free.  A case may carry
+#   "labelmap": {harness label 'A<l>_<d>' -> the name the library sees}   (injective; identities keep 'I<d>')
+# everything the harness computes itself (coefficient matrices, certificates, dense reference) is independent of the
+# names; only the live Hamiltonian handed to the library is spelled with them.  Prefactors are exact [num, den] pairs of
+# arbitrary size in the ordinary term format.
+# ------------------------------------------------------------------------------------------
+def build_ham_c12(case):
+    """the live Hamiltonian of a case, operator names spelled through case['labelmap'] if present"""
+    lm = case.get("labelmap")
+    if not lm:
+        return build_ham(case)
+    from util import Hamiltonian
+    from props.c01 import default_values, make_term
+    conv, cm = default_values(case)
+    assert len(set(lm.values())) == len(lm) and not any(v in conv and v not in lm for v in lm.values()), "harness: labelmap not injective"
+    conv2 = {lm.get(k, k): v for k, v in conv.items()}
+    terms = [[t[0], t[1], t[2], [[k, lm.get(v, v)] for k, v in t[3]]] for t in case["terms"]]
+    return Hamiltonian([make_term(t) for t in terms], conv2, cm)
+
+
+def _digest_kinds():
+    import hashlib
+    return {
+        "sha256[:8]": lambda b: hashlib.sha256(b).hexdigest()[:8],
+        "sha256[-8:]": lambda b: hashlib.sha256(b).hexdigest()[-8:],
+        "sha256[20:28]": lambda b: hashlib.sha256(b).hexdigest()[20:28],
+        "sha1[:8]": lambda b: hashlib.sha1(b).hexdigest()[:8],
+        "md5[:8]": lambda b: hashlib.md5(b).hexdigest()[:8],
+        "md5[-8:]": lambda b: hashlib.md5(b).hexdigest()[-8:],
+        "blake2b[:8]": lambda b: hashlib.blake2b(b).hexdigest()[:8],
+        "sha512[:8]": lambda b: hashlib.sha512(b).hexdigest()[:8],
+    }
+
+
+SPELL_STEMS = ["A", "O", "op", "S", "B", "n", "X", "sigma_", "c", "J", "h", "Sz", "a_dag_", "N", "T", "P", "Q_", "k"]
+_COLLISIONS = {}
+
+
+def colliding_labels(stem, kind, want=2, limit=600000):
+    """pairs of numbered operator names stem<k> (k = 0, 1, 2, ...) that agree on a 32-bit truncation `kind` of a standard
+    digest of their text (birthday search in ascending k: about 10^5 names): names that any key built from a SHORTENED
+    digest of the label text confuses, whereas the operators they name are unrelated"""
+    key = (stem, kind)
+    if key not in _COLLISIONS:
+        f = _digest_kinds()[kind]
+        seen, pairs = {}, []
+        for k in range(limit):
+            lab = f"{stem}{k}"
+            d = f(lab.encode())
+            if d in seen:
+                pairs.append([seen[d], lab])
+                if len(pairs) >= want:
+                    break
+            else:
+                seen[d] = lab
+        _COLLISIONS[key] = pairs
+    return _COLLISIONS[key]
+
+
+def odd_spellings(rng):
+    """three distinct unusual but legal operator names"""
+    import hashlib
+    fam = rng.choice(["longprefix", "case", "space", "digits", "unicode", "hexlike", "prefixes", "punct", "long", "suffixdigits"])
+    if fam == "longprefix":
+        stem = "operator_with_a_rather_long_common_name_" * rng.choice([1, 3])
+        labs = [stem + x for x in rng.sample("abcdefgh", 3)]
+    elif fam == "case":
+        labs = rng.choice([["Sz", "sz", "SZ"], ["Op", "oP", "OP"], ["x", "X", "xX"]])
+    elif fam == "space":
+        labs = rng.choice([["X", "X ", " X"], ["a b", "ab", "a  b"], ["s\t", "s", "s\n"]])
+    elif fam == "digits":
+        labs = rng.choice([["0", "00", "000"], ["7", "70", "07"], ["12", "21", "121"]])
+    elif fam == "unicode":
+        labs = rng.choice([["\u03c3x", "\u03c3y", "\u03c3z"], ["\u015d\u207a", "\u015d\u207b", "\u015d\u1dbb"], ["e\u0301", "\u00e9", "e"]])
+    elif fam == "hexlike":            # names that look like the hex digests keys are built from
+        labs = [hashlib.sha256(f"{rng.random()}".encode()).hexdigest() for _ in range(3)]
+        if rng.random() < 0.5:
+            labs[1] = labs[0][:-1] + ("0" if labs[0][-1] != "0" else "1")
+    elif fam == "prefixes":
+        s = rng.choice(["n", "ab", "I", "A1"])
+        labs = [s, s + s, s + s + s] if s != "I" else ["Ix", "IxIx", "Ixx"]
+    elif fam == "punct":
+        labs = rng.choice([["a+b", "a*b", "(a)"], ["a,b", "a;b", "a.b"], ["[0]", "[1]", "{0}"], ["a'", "a\"", "a`"]])
+    elif fam == "long":
+        labs = ["L" * 300 + x for x in "abc"]
+    else:
+        k = rng.randrange(10 ** 6)
+        labs = [f"A{k}", f"A{k}0", f"A{k + 1}"]
+    labs = list(labs)
+    rng.shuffle(labs)
+    return fam, labs
+
+
+def spelled_labelmap(rng, phys, pools, focus_dim=None):
+    """an injective map of the harness labels A<l>_<d> (l < 3) of every physical dimension to names: for `focus_dim` (default
+    a random one) the first two labels get a pair from a collision pool or an odd-spelling family, all other labels numbered
+    names of the pool's style.  -> (labelmap, description)"""
+    dims = sorted({d for d in phys if d > 1})
+    fd = focus_dim if focus_dim in dims else rng.choice(dims)
+    used, lm = set(), {}
+    if pools and rng.random() < 0.6:
+        stem, kind, pairs = pools[0] if rng.random() < 0.4 else rng.choice(pools)
+        pair = list(rng.choice(pairs))
+        rng.shuffle(pair)
+        names = pair + [f"{stem}{rng.randrange(10 ** 5)}"]
+        desc = "digest-collision " + kind
+    else:
+        fam, names = odd_spellings(rng)
+        stem = rng.choice(SPELL_STEMS)
+        desc = "odd " + fam
+    for d in dims:
+        for l in range(3):
+            if d == fd:
+                nm = names[l]
+            else:
+                nm = f"{stem}{rng.randrange(10 ** 5)}"
+            while nm in used or (nm[:1] == "I" and nm[1:].isdigit()):
+                nm = f"{stem}{rng.randrange(10 ** 6)}_{d}"
+            used.add(nm)
+            lm[f"A{l}_{d}"] = nm
+    return lm, desc
+
+
+def _rand_rational(rng, mode):
+    """one non-zero rational of magnitude about 0.1 .. 10 in the representation class `mode`"""
+    import math
+    if mode == "small":
+        return Fraction(rng.choice([1, 2, -1, 3, -2, 5, 7, -3]), rng.choice([1, 1, 2, 3]))
+    if mode == "bigden":           # p/q with a denominator of 4..12 digits
+        q = int(10 ** rng.uniform(3, 12)) | 1
+        p = max(1, int(q * 10 ** rng.uniform(-1, 1)))
+        g = math.gcd(p, q)
+        return Fraction(rng.choice([1, -1]) * p // g, q // g)
+    if mode == "primeden":         # small numerator over a denominator just above a power of ten (the 1/1009-like couplings)
+        q = int(10 ** rng.choice([2, 3, 3, 4, 6])) + rng.choice([1, 3, 7, 9, 13, 19, 21, 31, 33])
+        return Fraction(rng.choice([1, 2, 3, 5, 7, 11, -1, -2, -3]) * max(1, q // rng.choice([1, 10, 100, 1000])), q)
+    if mode == "dyadic":           # the exact value of a binary floating point number (Fraction(0.1) = 3602879701896397 / 2^55)
+        return Fraction(rng.choice([1, -1]) * rng.uniform(0.1, 4.0))
+    if mode == "decimal":          # a decimal with 7..14 digits
+        k = rng.choice([7, 8, 10, 12, 14])
+        return Fraction(rng.choice([1, -1]) * rng.randrange(10 ** (k - 1), 4 * 10 ** k), 10 ** k)
+    raise ValueError(mode)
+
+
+def _rand_scale(rng):
+    """a global factor for all prefactors of a Hamiltonian (the operator Schmidt ranks do not depend on it): (Fraction, tag)"""
+    kind = rng.choice(["one", "pow10", "pow10", "pow2", "bigden", "dyadic", "huge_int"])
+    if kind == "one":
+        return Fraction(1), "1"
+    if kind == "pow10":
+        k = rng.choice([-40, -30, -20, -12, -9, -7, -6, -3, 3, 6, 9, 12, 20, 30, 40])
+        return Fraction(10) ** k, f"1e{k}"
+    if kind == "pow2":
+        k = rng.choice([-100, -64, -53, -30, -21, -20, 20, 53, 64, 100])
+        return Fraction(2) ** k, f"2^{k}"
+    if kind == "huge_int":
+        return Fraction(rng.randrange(10 ** 15, 10 ** 25)), "integer of 16..25 digits"
+    return _rand_rational(rng, kind), kind
+
+
 def run_history(history):
     """earlier TTNO constructions in the same process (any construction method); what they return is not judged here
     (exactness of the other methods is C01's subject): [method, None | exception text]"""
     out = []
     for h in history:
         try:
-            TTNO.from_hamiltonian(build_ham(h), build_ref(h), finder(h["method"]))
+            TTNO.from_hamiltonian(build_ham_c12(h), build_ref(h), finder(h["method"]))
             out.append([h["method"], None])
         except Exception as e:  # noqa
             out.append([h["method"], f"{type(e).__name__}: {e}"[:200]])
@@ -350,7 +513,23 @@ class C12(Prop):
             "itself is needed; 'hub' = 6..160 distinct terms with up to 6 labels per site on stars/spiders/random trees with a node of >= 3 "
             "neighbours, branching nodes mostly without operator (dimension 1 or untouched), unit or rational coefficients, first "
             "construction (80%) or after a history: diagrams with hundreds of vertices. All other cases share the process of the check run "
-            "(a long history of SGE constructions). Quick tier: hub cases with more than 40 terms are judged by the oracle only (no tie)")
+            "(a long history of SGE constructions). Quick tier: hub cases with more than 40 terms are judged by the oracle only (no tie). "
+            "OPERATOR NAMES [str5-C12] (cases with a 'labelmap': the library sees the operators under these names, everything the harness "
+            "computes is independent of them): numbered names stem<k> (stems A, O, op, S, sigma_, a_dag_, random letters ...) taken from pools "
+            "of PAIRS WHOSE 32-BIT DIGEST TRUNCATIONS COINCIDE (birthday search over ~10^5 names; sha256 prefix - the digest the state diagram's "
+            "subtree keys are built from - in every run, and 3 (quick) / all (thorough) of sha256 suffix / middle, sha1, md5 prefix / suffix, "
+            "blake2b, sha512) and odd spellings (long common prefix, case / whitespace variants, digits only, non-ASCII incl. composed vs "
+            "decomposed accents, names that look like hex digests, names that are prefixes / repetitions of each other, punctuation, 300 "
+            "characters, digit suffixes); structure 'pair' (75%): 2..3 terms that carry differently named operators on one site s (mostly at depth "
+            ">= 2), agree on the rest of the subtree of an ancestor p of s and differ outside it, plus 0..3 random terms, unit or rational "
+            "coefficients; 25%: main-family Hamiltonians with spelled names. COEFFICIENT SIZE AND REPRESENTATION [str5-C12] (struct scaled:*): "
+            "'lowrank' (60%): coupling matrix G = X*Y of exact rank k <= 3 < min(rows, columns) between two dimension-3 sites of a small or random "
+            "tree, entries of X, Y = p/q with denominators up to 12 digits / small numerators over denominators just above a power of ten "
+            "(1/1009-like) / exact values of binary floats (denominator 2^5x) / decimals with 7..14 digits / small rationals (control), 0 or 20% "
+            "zeros, 30% with further terms elsewhere; 40%: main-family Hamiltonians (unit / rational / symbolic); in both all prefactors times "
+            "one global factor: 1, 10^k (|k| <= 40), 2^k (|k| <= 100), a rational with a big denominator, the exact value of a float, an integer "
+            "of 16..25 digits (prefactors of one Hamiltonian stay within a few orders of magnitude of each other, so that the relative "
+            "threshold of the numerical Schmidt rank is meaningful; exactness is judged relative to the largest entry of H)")
     clauses = [
         ("F", "min_cert_sound: an accepted certificate (row/column indices of an r x r minor of Gamma and its inverse) excludes every factorisation "
               "Gamma = X*Y through an inner dimension k < r, for all matrices and all X, Y (C12_min_cert_sound; core lemma C12_kernel_vector: k equations "
@@ -376,6 +555,10 @@ class C12(Prop):
               "cross-check is skipped)"),
         ("V", "oracle: numerical operator Schmidt rank of the dense Hamiltonian across e (SVD, relative threshold 1e-9, generic random operator and "
               "coefficient values) equals the bond dimension; single-term Hamiltonians give bond dimension 1 everywhere"),
+        ("V", "[str5-C12] the same oracle, certificates and call-path tie for Hamiltonians whose operators carry arbitrary names (incl. pairs of names "
+              "with coinciding truncated digests) and whose rational prefactors have large numerators / denominators or a global factor between "
+              "1e-40 and 1e40: the bond dimension must not depend on how the operators are called, and exactly rank-deficient coupling matrices "
+              "must be recognised whatever the size of the fractions; the dense TTNO must equal H up to 1e-9 RELATIVE to the largest entry of H"),
     ]
     trusted_base = ["the link 'a TTNO with bond k on e that represents H exactly factors Gamma_e through k' (operator strings on either side are linearly "
                     "independent for generic operator values) is the standard argument and is not formalised; what is kernel-checked is rank Gamma_e >= r",
@@ -476,7 +659,179 @@ class C12(Prop):
             cases.append({"kind": "ham", "method": "SGE", "children": ch, "phys": phys, "terms": terms, "nlabels": 6, "coefmode": "sym",
                           "dupmode": "none", "struct": "partsym", "seed": rng.randrange(10 ** 6), "group": 20000 + k})
         cases += self._history_cases(ctx, rng, cap, budget_scale)
+        cases += self._spell_cases(ctx, rng, cap, budget_scale)
+        cases += self._scaled_cases(ctx, rng, cap, budget_scale)
         return cases
+
+    # [str5-C12] ------------------------------------------------------------------------------------------------------
+    def _spell_cases(self, ctx, rng, cap, budget_scale):
+        """operator NAMES: the same Hamiltonians with the operators called differently (case['labelmap']).  Pools of numbered
+        names stem<k> whose 32-bit digest truncations coincide (several standard digests and truncations, birthday search) and
+        families of odd spellings; 'pair' structure: two or three terms that differ at one site s (differently named
+        operators) and outside the subtree of an ancestor p of s, and agree on the rest of the subtree of p, plus random terms;
+        'random' structure: a main-family case with spelled names"""
+        out = []
+        # one pool for the plain prefix of the digest the state diagram's subtree keys are built from (sha256), and pools for other
+        # truncations / digests; a case with digest-colliding names takes the first pool with probability 0.4
+        kinds = [k for k in _digest_kinds() if k != "sha256[:8]"]
+        pools = []
+        for kind in ["sha256[:8]"] + rng.sample(kinds, ctx.scale(3, len(kinds))):
+            stem = rng.choice(SPELL_STEMS) if rng.random() < 0.7 else "".join(rng.choice("abcdefghijklmnopqrstuvwxyz") for _ in range(rng.choice([1, 2, 3])))
+            pairs = colliding_labels(stem, kind)
+            if pairs:
+                pools.append((stem, kind, pairs))
+        for k in range(ctx.scale(64, 500) * budget_scale):
+            if rng.random() < 0.25:
+                case = self._random_case(rng, random_children(rng, rng.choice([3, 4, 4, 5, 5, 6])), cap, 60000 + k, coefmodes=("unit", "frac", "sym"),
+                                         p_product=0.6)
+                if case is None or case.get("labelset") == "amb":
+                    continue
+                lm, desc = spelled_labelmap(rng, case["phys"], pools)
+                case.update(labelmap=lm, spell=desc, struct="spell:" + case["struct"], labelset="spelled")
+            else:
+                case = self._pair_case(rng, pools, cap, 60000 + k)
+                if case is None:
+                    continue
+            out.append(case)
+        return out
+
+    @staticmethod
+    def _pair_case(rng, pools, cap, g):
+        n = rng.choice([3, 4, 4, 5, 5, 6])
+        for _try in range(4):            # mostly trees with a node at depth >= 2
+            ch = [[1], [2, 3], [], []] if rng.random() < 0.15 else random_children(rng, n)
+            par = parents_of(ch)
+            depth = [0] * len(ch)
+            for v in preorder(ch)[1:]:
+                depth[v] = depth[par[v]] + 1
+            if max(depth) >= 2:
+                break
+        n = len(ch)
+        deep = [v for v in range(1, n) if depth[v] >= 2]
+        s = rng.choice(deep) if deep and rng.random() < 0.75 else rng.randrange(1, n)
+        phys = random_phys(rng, n, cap)
+        if phys[s] < 2:
+            phys[s] = rng.choice([2, 3])
+        for i in range(n):
+            if phys[i] == 1 and rng.random() < 0.6:
+                phys[i] = 2
+        while int(np.prod(phys)) > cap:
+            i = max((q for q in range(n) if q != s), key=lambda q: (phys[q], rng.random()))
+            if phys[i] == 1:
+                return None
+            phys[i] -= 1
+        d = phys[s]
+        anc = []
+        v = par[s]
+        while v is not None:
+            anc.append(v)
+            v = par[v]
+        p = anc[0] if rng.random() < 0.6 else rng.choice(anc)
+        sub = set(preorder(ch, p))
+        outside = [i for i in range(n) if i not in sub and phys[i] > 1]
+        inside = [i for i in sub if i != s and phys[i] > 1]
+
+        def lab(i):
+            return f"A{rng.randrange(3)}_{phys[i]}"
+        nvar = rng.choice([2, 2, 3])
+        common = rng.random() < 0.75
+        W = [[i, lab(i)] for i in inside if rng.random() < 0.3]
+        seen, terms = set(), []
+
+        def add(ops, coef):
+            full = tuple(dict((a, b) for a, b in ops).get(i, f"I{phys[i]}") for i in range(n))
+            if not ops or full in seen:
+                return False
+            seen.add(full)
+            ops = [list(x) for x in ops]
+            rng.shuffle(ops)
+            terms.append([coef.numerator, coef.denominator, "1", ops])
+            return True
+        coefmode = rng.choice(["unit", "unit", "frac"])
+
+        def coef():
+            return Fraction(1) if coefmode == "unit" else Fraction(rng.choice([1, 2, -1, 3, -2, 5]), rng.choice([1, 1, 2, 3]))
+        for k in range(nvar):
+            for _try in range(20):
+                w = W if common else [[i, lab(i)] for i in inside if rng.random() < 0.3]
+                o = [[i, lab(i)] for i in (rng.sample(outside, rng.randrange(1, min(2, len(outside)) + 1)) if outside else [])]
+                if add([[s, f"A{k}_{d}"]] + w + o, coef()):
+                    break
+        for _ in range(rng.choice([0, 0, 1, 2, 3])):
+            sites = [i for i in range(n) if phys[i] > 1]
+            add([[i, lab(i)] for i in rng.sample(sites, rng.randrange(1, min(3, len(sites)) + 1))], coef())
+        if len(terms) < 2:
+            return None
+        rng.shuffle(terms)
+        lm, desc = spelled_labelmap(rng, phys, pools, focus_dim=d)
+        return {"kind": "ham", "method": "SGE", "children": ch, "phys": phys, "terms": terms, "nlabels": 3, "coefmode": coefmode, "dupmode": "none",
+                "struct": "spell:pair", "labelset": "spelled", "labelmap": lm, "spell": desc, "seed": rng.randrange(10 ** 6), "group": g}
+
+    def _scaled_cases(self, ctx, rng, cap, budget_scale):
+        """coefficient SIZE and REPRESENTATION: rational prefactors with large numerators / denominators (p/q with up to 12-digit
+        q, exact values of binary floats, long decimals), all prefactors of a Hamiltonian times one global factor from 1e-40 to
+        1e40.  'lowrank': the coupling matrix G = X*Y between two sites has exact rank k < min(rows, columns) with such entries
+        (bond dimension k is reached only by exact arithmetic on the true prefactors); 'main': a main-family Hamiltonian times
+        a global factor.  The prefactors of one Hamiltonian stay within a few orders of magnitude of each other, so the
+        numerical operator Schmidt rank (relative threshold) is well defined."""
+        out = []
+        for k in range(ctx.scale(48, 400) * budget_scale):
+            scale, stag = _rand_scale(rng)
+            if rng.random() < 0.4:
+                case = self._random_case(rng, random_children(rng, rng.choice([2, 3, 3, 4, 4, 5, 6])), cap, 70000 + k, coefmodes=("unit", "frac", "frac", "sym"),
+                                         p_product=0.7)
+                if case is None:
+                    continue
+                if stag == "1":
+                    scale, stag = Fraction(10) ** rng.choice([-9, -7, 7, 9]), "1e+-7/9"
+                for t in case["terms"]:
+                    f = term_frac(t) * scale
+                    t[0], t[1] = f.numerator, f.denominator
+                case.update(struct="scaled:" + case["struct"], scale=stag, entries="small")
+                out.append(case)
+                continue
+            ch = rng.choice([[[1], []], [[1], [2], []], [[1, 2], [], []], [[1], [2, 3], [], []]]) if rng.random() < 0.6 else \
+                random_children(rng, rng.choice([3, 4, 5]))
+            n = len(ch)
+            phys = [3] * n
+            while int(np.prod(phys)) > cap:
+                phys[rng.randrange(n)] = 2
+            three = [i for i in range(n) if phys[i] == 3]
+            if len(three) < 2:
+                continue
+            u, v = rng.sample(three, 2)
+            for i in range(n):
+                if i not in (u, v) and rng.random() < 0.3:
+                    phys[i] = rng.choice([1, 2])
+            r, c = rng.choice([2, 3, 3, 4, 5]), rng.choice([2, 3, 3, 4, 5, 6])
+            kk = rng.randrange(1, min(r, c)) if min(r, c) > 1 else 1
+            kk = min(kk, 3)
+            mode = rng.choice(["bigden", "bigden", "primeden", "primeden", "dyadic", "decimal", "small"])
+            pz = rng.choice([0.0, 0.0, 0.2])
+            X = [[Fraction(0) if rng.random() < pz else _rand_rational(rng, mode) for _ in range(kk)] for _ in range(r)]
+            Y = [[Fraction(0) if rng.random() < pz else _rand_rational(rng, mode) for _ in range(c)] for _ in range(kk)]
+            G = [[sum(X[i][l] * Y[l][j] for l in range(kk)) * scale for j in range(c)] for i in range(r)]
+            terms = [[G[i][j].numerator, G[i][j].denominator, "1", [[u, f"A{i}_3"], [v, f"A{j}_3"]]]
+                     for i in range(r) for j in range(c) if G[i][j] != 0]
+            if len(terms) < 2:
+                continue
+            if rng.random() < 0.3:            # further terms elsewhere, prefactors of the same order of magnitude
+                others = [i for i in range(n) if i not in (u, v) and phys[i] > 1]
+                for i in others:
+                    if rng.random() < 0.6:
+                        f = _rand_rational(rng, mode) * scale
+                        ops = [[i, f"A{rng.randrange(3)}_{phys[i]}"]]
+                        if rng.random() < 0.5:
+                            ops.append([u, f"A{rng.randrange(r)}_3"])
+                        if ops not in [t[3] for t in terms]:
+                            terms.append([f.numerator, f.denominator, "1", ops])
+            rng.shuffle(terms)
+            case = {"kind": "ham", "method": "SGE", "children": ch, "phys": phys, "terms": terms, "nlabels": 6, "coefmode": "frac", "dupmode": "none",
+                    "struct": "scaled:lowrank", "labelset": "std", "scale": stag, "entries": mode, "seed": rng.randrange(10 ** 6), "group": 70000 + k}
+            if case_features(case)["same_string"]:
+                continue
+            out.append(case)
+        return out
 
     def _history_cases(self, ctx, rng, cap, budget_scale):
         """process histories (the property holds for every construction of a program, whatever the process did before):
@@ -627,6 +982,13 @@ class C12(Prop):
             c["struct:" + x.get("struct", "random")] += 1
             c["labels:" + x.get("labelset", "std")] += 1
             c["has_dim1_node"] += 1 in x["phys"]
+            if x.get("labelmap"):
+                c["spelling:" + x.get("spell", "?")] += 1
+            if "scale" in x:
+                c["global_scale:" + x["scale"]] += 1
+                c["entries:" + x.get("entries", "small")] += 1
+            dd = max(len(str(abs(t[1]))) for t in x["terms"])
+            c["max_denominator_digits:" + ("1" if dd == 1 else "2-6" if dd <= 6 else "7-12" if dd <= 12 else "13-30" if dd <= 30 else ">30")] += 1
             c["process:" + ("shared with the earlier cases of the run" if x.get("proc") != "fresh" else
                             "pristine, first construction" if not x.get("history") else "pristine, after a history")] += 1
             for h in x.get("history", []):
@@ -651,7 +1013,7 @@ class C12(Prop):
         if case.get("history"):
             ob["history"] = run_history(case["history"])
         ttns = build_ref(case)
-        ham = build_ham(case)
+        ham = build_ham_c12(case)
         ch = case["children"]
         pre = preorder(ch)
         ids = [nid(i) for i in pre]
@@ -698,7 +1060,10 @@ class C12(Prop):
         # exactness (C01's oracle) — a minimal but wrong operator must not pass
         ref = util.dense_ham(ham, ids, dims)
         from props.c01 import dense_ttno
-        ob["exact_dev"] = float(np.max(np.abs(dense_ttno(ttno, ids) - ref))) / max(1.0, float(np.max(np.abs(ref))))
+        dev = float(np.max(np.abs(dense_ttno(ttno, ids) - ref)))
+        ob["exact_dev"] = dev / max(1.0, float(np.max(np.abs(ref))))
+        # [str5-C12] relative to the size of the reference itself (Hamiltonians with tiny or huge prefactors)
+        ob["exact_rel"] = dev / float(np.max(np.abs(ref))) if float(np.max(np.abs(ref))) > 0 else dev
         dl = [dims[i] for i in ids]
         ob["schmidt"] = {}
         for c in range(1, len(ch)):
@@ -878,6 +1243,8 @@ class C12(Prop):
             return f"raised {ob['exception']}"
         if ob["exact_dev"] > 1e-9:
             return f"the SGE TTNO is not exact (relative deviation {ob['exact_dev']})"
+        if ob.get("exact_rel", 0.0) > 1e-9:
+            return f"the SGE TTNO is not exact (relative deviation {ob['exact_rel']}, relative to the largest entry of H)"
         for e in range(1, len(case["children"])):
             r, kept, dropped = ob["schmidt"][str(e)]
             b = ob["bond"][str(e)]
